@@ -34,6 +34,66 @@ CHECKS["C12"] = dict(
          ],
 )
 
+BASE_TRUST = "Trusted: go/ssa construction, the gosym interpreter (validated on every run by replaying sampled paths natively and comparing observed values), z3 4.8.12 (thorough tier: final assertion verdicts re-discharged on z3 5.1.0 and cvc5); pkg/errors and fmt are opaque-error models."
+
+CHECKS["C03"] = dict(
+    level_text="Within the bounds the solver shows that every path the real validators accept is lexically strictly inside the destination (Join(dest,p)=dest/p, component-wise well formed) and that an accepted hard link always names an earlier accepted regular entry; hostile packet scripts against a destination with outward symlinks are decided on the model file system where registered.",
+    level_note="Bounds: paths <=3 (quick) / <=5 (thorough) symbolic bytes; link scripts of 2 (quick) / 3 (thorough) entries with names <=2 bytes. " + BASE_TRUST,
+    assumptions=["dest is an absolute clean path that is not reached through symlinks", "paths longer than the bound and Windows path forms are outside the claim"],
+    obligations=[
+        ob("VH_C03_join", dict(N=n), Q, covers=["accepted", "rejected"] if n > 0 else ["rejected"], bounds="all byte strings of length %d" % n) for n in range(0, 4)] + [
+        ob("VH_C03_join", dict(N=n), T, covers=["accepted", "rejected"] if n > 0 else ["rejected"], bounds="all byte strings of length %d" % n) for n in range(0, 6)] + [
+        ob("VH_C03_join2", dict(N=2), Q, covers=["accepted", "rejected"], bounds="dir and child names of 1..2 bytes"),
+        ob("VH_C03_join2", dict(N=3), T, covers=["accepted", "rejected"], bounds="dir and child names of 1..3 bytes"),
+        ob("VH_C03_links", dict(K=2, N=2), Q, covers=["order-rejected", "link-rejected", "link-accepted", "all-accepted"], bounds="2 entries, path 1..2 bytes, linkname 0..2 bytes, class dir/file/symlink"),
+        ob("VH_C03_links", dict(K=3, N=2), T, covers=["order-rejected", "link-rejected", "link-accepted", "all-accepted"], bounds="3 entries, path 1..2 bytes, linkname 0..2 bytes"),
+    ],
+)
+
+CHECKS["C02"] = dict(
+    level_text="For every pair of stats with full-width symbolic fields the solver shows sameFile(DiffMetadata) is exactly the identity relation of the statement and sameFile(DiffNone) is never true; the diff/API-level obligations are added where registered.",
+    level_note="Bounds: link names <=2 bytes, all numeric fields full width. " + BASE_TRUST,
+    assumptions=["DiffContent (byte comparison of real files) is outside the claim", "edit histories are reduced to arbitrary (old,new) pairs: the diff keeps no state between runs"],
+    obligations=[
+        ob("VH_C02_samefile", {}, covers=["identical", "different"], bounds="all field values; linknames of 0..2 bytes"),
+    ],
+)
+
+CHECKS["C18"] = dict(
+    level_text="For every sorted list of plausible paths within the bounds the solver shows dedupePaths returns a non-nested covering sub-list (nil iff the root is listed); resolver obligations are added where registered.",
+    level_note="Bounds: lists of 3 (quick) / 4 (thorough) paths of 1..3 (quick) / 1..4 (thorough) symbolic bytes. " + BASE_TRUST,
+    assumptions=["inputs are strictly ascending bytewise and are '.' or relative paths without empty or '.' components (what filepath.Join produces in FollowLinks)"],
+    obligations=[
+        ob("VH_C18_dedupe", dict(K=3, N=3), Q, covers=["dot", "nodot"], bounds="3 paths of 1..3 bytes"),
+        ob("VH_C18_dedupe", dict(K=4, N=3), T, covers=["dot", "nodot"], bounds="4 paths of 1..3 bytes"),
+        ob("VH_C18_dedupe", dict(K=3, N=4), T, covers=["dot", "nodot"], bounds="3 paths of 1..4 bytes"),
+    ],
+)
+
+CHECKS["C19"] = dict(
+    level_text="One allocator step from an arbitrary valid buffer state with fully symbolic chunk lengths, capacities and request size: the solver shows length, non-overlap, append-only emission order and invariant preservation, which covers allocation histories of any length by induction; plus K allocations from the empty buffer.",
+    level_note="Bounds: states of 0..2 (quick) / 0..3 (thorough) chunks, sizes in [0,2^31); sequences of 3 (quick) / 5 (thorough) allocations. " + BASE_TRUST,
+    assumptions=["slice elements are not inspected (the allocator never reads them)", "representation invariant of the last chunk: cap == 32768 or len == cap"],
+    obligations=[
+        ob("VH_C19_alloc_step", dict(K=0), covers=["appended"], bounds="empty buffer, n in [0,2^31)"),
+        ob("VH_C19_alloc_step", dict(K=1), covers=["appended", "extended"], bounds="1 chunk, symbolic len/cap, n in [0,2^31)"),
+        ob("VH_C19_alloc_step", dict(K=2), covers=["appended", "extended"], bounds="2 chunks, symbolic len/cap"),
+        ob("VH_C19_alloc_step", dict(K=3), T, covers=["appended", "extended"], bounds="3 chunks, symbolic len/cap"),
+        ob("VH_C19_alloc_seq", dict(K=3), Q, covers=["done"], bounds="3 allocations, symbolic sizes"),
+        ob("VH_C19_alloc_seq", dict(K=5), T, covers=["done"], bounds="5 allocations, symbolic sizes"),
+    ],
+)
+
+CHECKS["C09"] = dict(
+    level_text="The solver proves, within the name-length bounds, the order lemma that turns 'pre-order walk over bytewise-sorted listings' into 'strictly ascending protocol order'; stat construction and walk obligations are added where registered.",
+    level_note="Bounds: directory prefix <=2 (quick) / <=3 (thorough) bytes, sibling names 1..2 (quick) / 1..3 (thorough) bytes, one-byte tails. The induction over tree depth is a stated hand argument; filepath.WalkDir's pre-order/sorted contract is assumed. " + BASE_TRUST,
+    assumptions=["os.ReadDir returns names sorted bytewise and filepath.WalkDir visits pre-order (stdlib contract)"],
+    obligations=[
+        ob("VH_C09_order_lemma", dict(ND=2, NN=2), Q, covers=["done"], bounds="|d|<=2, sibling names 1..2 bytes"),
+        ob("VH_C09_order_lemma", dict(ND=3, NN=3), T, covers=["done"], bounds="|d|<=3, sibling names 1..3 bytes"),
+    ],
+)
+
 NOT_APPLICABLE = {
     "C08": "quantifies over schedules and includes data-race freedom and non-overlap of stream calls; the hand-written SSA executor runs goroutines under one cooperative schedule and cannot enumerate interleavings or observe races, and no Go engine that can is installed (DESIGN.md §7)",
 }
